@@ -20,7 +20,7 @@ from __future__ import annotations
 import ast
 from typing import Callable, Optional
 
-from ..astutil import attr_chain, callee_name, is_name, text
+from ..astutil import call_recv, attr_chain, callee_name, is_name, text
 from ..core import Result
 from ..model import AnchorMissing, ClassInfo, Repo, walk_no_nested
 
@@ -58,8 +58,8 @@ def _effects(fn: ast.AST) -> tuple[set[str], list[tuple[int, str]]]:
             local_bufs[n.targets[0].id] = set()
     getvalue_of: dict[str, str] = {}
     for n in walk_no_nested(fn):
-        if isinstance(n, ast.Assign) and len(n.targets) == 1 and isinstance(n.targets[0], ast.Name) and isinstance(n.value, ast.Call) and callee_name(n.value) == "getvalue" and isinstance(n.value.func, ast.Attribute) and isinstance(n.value.func.value, ast.Name):
-            getvalue_of[n.targets[0].id] = n.value.func.value.id
+        if isinstance(n, ast.Assign) and len(n.targets) == 1 and isinstance(n.targets[0], ast.Name) and isinstance(n.value, ast.Call) and callee_name(n.value) == "getvalue" and isinstance(n.value.func, ast.Attribute) and isinstance(call_recv(n.value), ast.Name):
+            getvalue_of[n.targets[0].id] = call_recv(n.value).id
 
     def receiver_field(e: ast.AST) -> Optional[str]:
         ch = attr_chain(e)
@@ -84,7 +84,7 @@ def _effects(fn: ast.AST) -> tuple[set[str], list[tuple[int, str]]]:
         nm = callee_name(n)
         if nm in RENDER and isinstance(n.func, ast.Attribute):
             tb = target_buffer(n)
-            fld = receiver_field(n.func.value)
+            fld = receiver_field(call_recv(n))
             if isinstance(tb, ast.Name) and tb.id == bufp:
                 if fld is not None and nm in ("render", "render_async"):
                     own.add(fld)
@@ -94,11 +94,11 @@ def _effects(fn: ast.AST) -> tuple[set[str], list[tuple[int, str]]]:
                 local_bufs[tb.id].add(fld if (fld is not None and nm in ("render", "render_async")) else "\x00foreign")
             elif tb is not None and not (isinstance(tb, ast.Name)):
                 foreign.append((n.lineno, f"`{text(n)[:60]}` renders into `{text(tb)[:20]}`"))
-        elif nm in ("write", "writelines") and isinstance(n.func, ast.Attribute) and is_name(n.func.value, bufp):
+        elif nm in ("write", "writelines") and isinstance(n.func, ast.Attribute) and is_name(call_recv(n), bufp):
             a = n.args[0] if n.args else None
             src = getvalue_of.get(a.id) if isinstance(a, ast.Name) else None
-            if isinstance(a, ast.Call) and callee_name(a) == "getvalue" and isinstance(a.func, ast.Attribute) and isinstance(a.func.value, ast.Name):
-                src = a.func.value.id
+            if isinstance(a, ast.Call) and callee_name(a) == "getvalue" and isinstance(a.func, ast.Attribute) and isinstance(call_recv(a), ast.Name):
+                src = call_recv(a).id
             if src is not None and src in local_bufs:
                 pending.append((n, src))
             elif isinstance(a, ast.Attribute) and is_name(a.value, "self"):
